@@ -7,53 +7,139 @@ import DC.Proofs.Paging
 
 namespace DC.Cache
 
+/-- all facts about `clear` from the generic loop -/
+private theorem clear_spec (s : Cache) :
+    (s.clear).1 = (pageLoop (fun _ => true) "pageRowid" (s.rows.length + 1) s 0 0).1 ∧
+    (s.clear).2 = .int ((pageLoop (fun _ => true) "pageRowid" (s.rows.length + 1) s 0 0).2 : Nat) := by
+  unfold clear
+  rw [clearLoop_eq]
+  exact ⟨rfl, rfl⟩
+
+private theorem filter_const_true (l : List Row) : l.filter (fun _ => true) = l := by
+  rw [List.filter_eq_self]; intro _ _; rfl
+
+private theorem filter_const_false (l : List Row) : l.filter (fun _ => !true) = [] := by
+  rw [List.filter_eq_nil_iff]; intro _ _; simp
+
 /-- `clear()` empties the table and returns the number of rows, whatever the
 table size and page size. -/
 theorem clear_all (s : Cache) (hasc : RowidsAsc s.rows) (hpos : ∀ r ∈ s.rows, 0 < r.rowid)
     (hp : 0 < s.cfg.page) :
     (s.clear).1.rows = [] ∧ (s.clear).2 = .int s.rows.length := by
-  sorry
+  obtain ⟨e1, e2⟩ := clear_spec s
+  have h := pageLoop_spec (fun _ => true) "pageRowid" (s.rows.length + 1) s 0 0 hasc
+    (fun r hr _ => hpos r hr) hp (by rw [filter_const_true]; omega)
+  rw [e1, e2, h.1, h.2.1, filter_const_true, filter_const_false]
+  simp
 
 /-- `clear()` keeps the counters exact. -/
 theorem clear_counters (s : Cache) (hasc : RowidsAsc s.rows) (hpos : ∀ r ∈ s.rows, 0 < r.rowid)
     (hp : 0 < s.cfg.page) :
     (s.clear).1.count = s.count - s.rows.length ∧ (s.clear).1.size = s.size - sumSizes s.rows := by
-  sorry
+  obtain ⟨e1, _⟩ := clear_spec s
+  have h := pageLoop_spec (fun _ => true) "pageRowid" (s.rows.length + 1) s 0 0 hasc
+    (fun r hr _ => hpos r hr) hp (by rw [filter_const_true]; omega)
+  rw [e1, h.2.2.1, h.2.2.2.1, filter_const_true]
+  exact ⟨rfl, rfl⟩
 
 /-- outside a transaction block `clear()` removes every file a row referred to -/
 theorem clear_files (s : Cache) (hasc : RowidsAsc s.rows) (hpos : ∀ r ∈ s.rows, 0 < r.rowid)
     (hp : 0 < s.cfg.page) (hd : s.depth = 0) :
     ∀ r ∈ s.rows, ∀ f, r.file = some f → (s.clear).1.fileGet f = none := by
-  sorry
+  intro r hr f hf
+  obtain ⟨e1, _⟩ := clear_spec s
+  rw [e1]
+  exact pageLoop_files (fun _ => true) "pageRowid" f (s.rows.length + 1) s 0 0 hasc
+    (fun r hr _ => hpos r hr) hp (by rw [filter_const_true]; omega) hd
+    (Or.inl ⟨r, hr, rfl, hf⟩)
 
 /-- `evict(tag)` removes exactly the rows carrying the tag and returns their number. -/
 theorem evict_exact (s : Cache) (tag : SqlVal) (hasc : RowidsAsc s.rows)
     (hpos : ∀ r ∈ s.rows, 0 < r.rowid) (hp : 0 < s.cfg.page) :
     (s.evict tag).1.rows = s.rows.filter (fun r => !(r.tag.eqv tag)) ∧
     (s.evict tag).2 = .int (s.rows.filter (fun r => r.tag.eqv tag)).length := by
-  sorry
+  have hlen : (s.rows.filter (fun r => r.tag.eqv tag)).length ≤ s.rows.length :=
+    List.length_filter_le _ _
+  have h := pageLoop_spec (fun r => r.tag.eqv tag) "pageTag" (s.rows.length + 1) s 0 0 hasc
+    (fun r hr _ => hpos r hr) hp (by omega)
+  unfold evict
+  rw [evictLoop_eq]
+  refine ⟨h.1, ?_⟩
+  show Out.int ((pageLoop (fun r => r.tag.eqv tag) "pageTag" (s.rows.length + 1) s 0 0).2 : Nat) = _
+  rw [h.2.1]
+  simp
 
 /-- `evict(None)` removes nothing: SQL `tag = NULL` is never true. -/
 theorem evict_null (s : Cache) (hasc : RowidsAsc s.rows) (hpos : ∀ r ∈ s.rows, 0 < r.rowid)
     (hp : 0 < s.cfg.page) : (s.evict .null).1.rows = s.rows := by
-  sorry
+  rw [(evict_exact s .null hasc hpos hp).1, List.filter_eq_self]
+  intro r _
+  have : r.tag.eqv .null = false := by
+    cases r.tag <;> rfl
+  simp [this]
 
 /-- `__iter__` yields every key exactly once, in insertion (rowid) order. -/
 theorem iter_all (s : Cache) (E : Externals) (hasc : RowidsAsc s.rows)
     (hpos : ∀ r ∈ s.rows, 0 < r.rowid) (hp : 0 < s.cfg.page) :
     (s.iter E true).2 = .list (s.rows.map (fun r => keyOut E s.cfg.disk r.key r.raw)) := by
-  sorry
+  unfold iter
+  by_cases he : s.rows.isEmpty
+  · have : s.rows = [] := List.isEmpty_iff.mp he
+    simp [this]
+  · simp only [logSql_rows, he, Bool.false_eq_true, if_false, if_true]
+    have hk := iterLoop_keep true (maxRowid s.rows + 1) (s.rows.length + 1) (s.logSql "maxRowid") 0 []
+    have hb : ∀ r ∈ (s.logSql "maxRowid").rows, r.rowid < maxRowid s.rows + 1 := by
+      intro r hr
+      have := le_maxRowid s.rows r hr
+      omega
+    have hfull : s.rows.filter (fun r => decide (0 < r.rowid)) = s.rows := by
+      rw [List.filter_eq_self]; intro r hr; simpa using hpos r hr
+    have h := iterLoop_asc (maxRowid s.rows + 1) (s.rows.length + 1) (s.logSql "maxRowid") 0 []
+      hasc hb hp (by rw [logSql_rows, hfull]; omega)
+    rw [logSql_rows, hfull, List.nil_append] at h
+    show Out.list (List.map (fun r => keyOut E
+      (iterLoop true (maxRowid s.rows + 1) (s.rows.length + 1) (s.logSql "maxRowid") 0 []).1.cfg.disk
+        r.key r.raw)
+      (iterLoop true (maxRowid s.rows + 1) (s.rows.length + 1) (s.logSql "maxRowid") 0 []).2) = _
+    rw [h, hk.2.2]
+    rfl
 
 /-- `__reversed__` yields every key exactly once, in reverse insertion order. -/
 theorem riter_all (s : Cache) (E : Externals) (hasc : RowidsAsc s.rows)
     (hpos : ∀ r ∈ s.rows, 0 < r.rowid) (hp : 0 < s.cfg.page) :
     (s.iter E false).2 = .list (s.rows.reverse.map (fun r => keyOut E s.cfg.disk r.key r.raw)) := by
-  sorry
+  unfold iter
+  by_cases he : s.rows.isEmpty
+  · have : s.rows = [] := List.isEmpty_iff.mp he
+    simp [this]
+  · simp only [logSql_rows, he, Bool.false_eq_true, if_false]
+    have hk := iterLoop_keep false (maxRowid s.rows + 1) (s.rows.length + 1) (s.logSql "maxRowid")
+      (maxRowid s.rows + 1) []
+    have hfull : s.rows.filter (fun r => decide (r.rowid < maxRowid s.rows + 1)) = s.rows := by
+      rw [List.filter_eq_self]; intro r hr
+      have := le_maxRowid s.rows r hr
+      simp; omega
+    have h := iterLoop_desc (maxRowid s.rows + 1) (s.rows.length + 1) (s.logSql "maxRowid")
+      (maxRowid s.rows + 1) [] hasc hpos hp (by rw [logSql_rows, hfull]; omega)
+    rw [logSql_rows, hfull, List.nil_append] at h
+    show Out.list (List.map (fun r => keyOut E
+      (iterLoop false (maxRowid s.rows + 1) (s.rows.length + 1) (s.logSql "maxRowid")
+        (maxRowid s.rows + 1) []).1.cfg.disk r.key r.raw)
+      (iterLoop false (maxRowid s.rows + 1) (s.rows.length + 1) (s.logSql "maxRowid")
+        (maxRowid s.rows + 1) []).2) = _
+    rw [h, hk.2.2]
+    rfl
 
 /-- iteration does not change the table -/
 theorem iter_pure (s : Cache) (E : Externals) (asc : Bool) :
     (s.iter E asc).1.rows = s.rows ∧ (s.iter E asc).1.files = s.files := by
-  sorry
+  unfold iter
+  by_cases he : s.rows.isEmpty
+  · simp [he]
+  · simp only [logSql_rows, he, Bool.false_eq_true, if_false]
+    have hk := iterLoop_keep asc (maxRowid s.rows + 1) (s.rows.length + 1) (s.logSql "maxRowid")
+      (if asc then 0 else maxRowid s.rows + 1) []
+    exact ⟨hk.1, hk.2.1⟩
 
 /-- a plain row used by the non-vacuity examples -/
 def exRow (i : Nat) : Row :=
